@@ -90,7 +90,10 @@ def run_case(case):
     res = {"counters": {}, "violations": [], "keys": [], "tags": []}
     c = res["counters"]
     try:
-        data, fea, made = layoutgen.make_font(r)
+        outlines = common.rng(ID, "outlines", case["seed"], case["i"]).choice(["glyf", "glyf", "glyf", "cff", "cff2"])
+        data, fea, made = layoutgen.make_font(r, outlines=outlines)
+        res["tags"].append("outlines=" + outlines)
+        c["fonts_" + outlines] = 1
     except Exception as e:
         res["error"] = "generator failed: " + traceback.format_exc()[-800:]
         return res
@@ -122,8 +125,10 @@ def run_case(case):
                     reorder_glyphs(font, first)
                     c["two_step_reorders"] = c.get("two_step_reorders", 0) + 1
                     ctx["via"] = "a first re-ordering of the same font object"
-                if pname == "random" and case["i"] % 3 == 1:
-                    # the caller permutes, in place, the very list font.getGlyphOrder() handed out
+                if pname == "random" and case["i"] % 3 == 1 and outlines == "glyf":
+                    # the caller permutes, in place, the very list font.getGlyphOrder() handed out (glyf fonts only: for
+                    # CFF that list *is* the top dict's charset, from which fontTools lazily builds its name -> charstring
+                    # map, so permuting it by hand corrupts the table before reorder_glyphs is even called)
                     own = font.getGlyphOrder()
                     own[:] = order
                     c["in_place_orders"] = c.get("in_place_orders", 0) + 1
